@@ -288,6 +288,22 @@ Definition mon_burns (c : c10_case) : bool :=
       if c_res c =? 0 then k_T (dcell_at (post_of c) v) <? k_T (dcell_at (c_pre c) v) else true
   | _ => true
   end.
+(* 12: an undelegation takes out of the pooled delegation no more than the burned shares are worth:
+   amount <= (burned + 2) * delegation / supply (burned = floor(amount * supply / delegation) in
+   the module's arithmetic; 2 = that floor plus the 34-digit roundings, see
+   ShareClassProofs.cost_covers_amount) *)
+Definition mon_covers (c : c10_case) : bool :=
+  match c_op c with
+  | OUndelegate u v amt dn rcp =>
+      if c_res c =? 0 then
+        let k := dcell_at (c_pre c) v in
+        match k_B k with
+        | Some b => amt * k_T k <=? (k_T k - k_T (dcell_at (post_of c) v) + 2) * b
+        | None => false
+        end
+      else true
+  | _ => true
+  end.
 (* 10: a well-formed claim, and a well-formed delegation the sender can pay, succeed *)
 Definition mon_live (c : c10_case) : bool :=
   match c_op c with
@@ -333,7 +349,7 @@ Definition c10_check (a : c10_any) : list Z :=
       flag 0 (corr c) ++ flag 1 (mon_backed c) ++ flag 2 (mon_send c) ++ flag 3 (mon_available c) ++
       flag 4 (mon_paid c) ++ flag 5 (mon_entitled c) ++ flag 6 (mon_second c) ++
       flag 7 (mon_solvent c) ++ flag 8 (mon_noblock c) ++ flag 9 (mon_burns c) ++
-      flag 10 (mon_live c) ++ flag 11 (mon_noleak c) ++
+      flag 10 (mon_live c) ++ flag 11 (mon_noleak c) ++ flag 12 (mon_covers c) ++
       flag 101 (negb (trig_entries c)) ++ flag 102 (negb (trig_zero_cost c)) ++ flag 103 (negb (trig_leak c))
   end.
 
